@@ -85,7 +85,7 @@ def main():
     try:
         for pid in ALL:
             rc, o = sh(f"{PY} {V}/sa/check.py {pid} --tier quick", env={"VERIF_EVIDENCE_DIR": f"/tmp/seed-evidence-{name}", "VERIF_REPO": TARGET})
-            keys = re.findall(r"^\s+(C\d\d/[^\s]+?): ", o, flags=re.M)
+            keys = re.findall(r"^  (C\d\d/.+?): ", o, flags=re.M)
             if rc == 1:
                 detections[pid] = keys[:8]
             elif rc == 2:
